@@ -25,6 +25,12 @@ var leafValueType = map[string]reflect.Type{
 	spec.LDuration: reflect.TypeOf(tfx.DurationValue{}),
 }
 
+var altValueType = map[string]reflect.Type{
+	spec.LInt64:  reflect.TypeOf(tfx.AltInt64{}),
+	spec.LBool:   reflect.TypeOf(tfx.AltBool{}),
+	spec.LString: reflect.TypeOf(tfx.AltString{}),
+}
+
 // inputMode spreads the lattice modes over the input index.
 func inputMode(i int) int {
 	if i == 0 {
@@ -71,6 +77,9 @@ func conform(ms *spec.Msg, obj types.Object, ot types.ObjectType, path string, o
 		}
 		checkLeaf := func(ev attr.Value, ep string) {
 			want := leafValueType[a.Leaf]
+			if a.Alt {
+				want = altValueType[a.Leaf]
+			}
 			if a.Kind == spec.KCustom {
 				want = reflect.TypeOf(types.String{})
 			}
